@@ -24,6 +24,7 @@ def nontrivial(c):
 
 
 def _case(rng, heavy_ok=True, **kw):
+    kw.setdefault('mixed', True)
     sw = sweeps.gen_sweep(rng, **kw)
     kind = rng.choice(sweeps.KINDS_BASIC)
     k = sweeps.n_outputs(kind)
